@@ -9,6 +9,7 @@ pub fn dispatch(req: &Value) -> Value {
         "export_history" => export_history(req),
         "ts_field_name" => ts_field_name(req),
         "parse_docs" => parse_docs(req),
+        "conformance" => super::conformance::run(req["seed"].as_u64().unwrap_or(0), req["n"].as_u64().unwrap_or(2000) as usize),
         other => json!({"error": format!("unknown op {other}")}),
     }
 }
